@@ -493,3 +493,6 @@ LEVEL_NOTE = ("Trusted: Lean kernel; harness + pm_C10; REBASE geometries typed b
               "ASCII input; the complement table behind IsPalindromic is regenerated from the code on every run.")
 HARNESS_BIN = "run-clone"
 EXTRACT_BINS = ["extract-seq"]
+
+# the same requests executed 8 at a time in concurrent goroutines (check: PARALLEL / harness: VERIF_PAR)
+PARALLEL = {"quick": {"par": 8, "max_cases": 4000}, "thorough": {"par": 8, "max_cases": 40000, "race": True}}
